@@ -227,6 +227,18 @@ class CaseResult(dict):
     pass
 
 
+def split_goal(g):
+    """goal | (goal, hyps) | (goal, hyps, opts)"""
+    hyps, opts = [], {}
+    if isinstance(g, tuple):
+        if len(g) == 3:
+            g, hyps, opts = g
+        else:
+            g, hyps = g
+    hyps = [h.t if isinstance(h, SB) else h for h in hyps]
+    return g, hyps, opts
+
+
 def run_case(prop_id, name, body, kwargs, patches, *, timeout_ms=30000, max_paths=20000, n_validate=2, seed=0,
              expect_tags=()):
     """Run one case in sym mode, then translator validation.  Returns a CaseResult (plain dict)."""
@@ -271,10 +283,7 @@ def run_case(prop_id, name, body, kwargs, patches, *, timeout_ms=30000, max_path
                     continue
                 goals = out or {}
                 for label, g in goals.items():
-                    hyps = []
-                    if isinstance(g, tuple):
-                        g, hyps = g
-                        hyps = [h.t if isinstance(h, SB) else h for h in hyps]
+                    g, hyps, gopts = split_goal(g)
                     res["goals"] += 1
                     gt = g.t if isinstance(g, SB) else g
                     if isinstance(gt, (bool, np.bool_)):
@@ -286,7 +295,7 @@ def run_case(prop_id, name, body, kwargs, patches, *, timeout_ms=30000, max_path
                         res["nontrivial"] += 1
                         if len(res["samples"]) < 2:
                             res["samples"].append(dict(case=name, label=label, obligation=_goal_str(simp)))
-                    verdict, model = eng.prove(gt, extra=hyps)
+                    verdict, model = eng.prove(gt, extra=hyps, pc_upto=gopts.get("pc_upto"))
                     if verdict == "unsat":
                         res["unsat"] += 1
                     elif verdict == "sat":
@@ -327,9 +336,7 @@ def run_float(body, kwargs, values, tol=1e-6):
         return None, m, e
     out = {}
     for k, g in goals.items():
-        if isinstance(g, tuple):
-            g = g[0]
-        out[k] = bool(g)
+        out[k] = bool(split_goal(g)[0])
     return out, m, None
 
 
@@ -353,8 +360,7 @@ def validate_case(body, kwargs, patches, n=2, seed=0, timeout_ms=30000):
         values = fm.values
         info["runs"] += 1
         for label, g in fgoals.items():
-            if isinstance(g, tuple):
-                g = g[0]
+            g = split_goal(g)[0]
             if not bool(g):
                 info["mismatch"].append(dict(kind="float-goal", label=label, values=_jsonable(values)))
         # const run (patched)
@@ -384,11 +390,8 @@ def validate_case(body, kwargs, patches, n=2, seed=0, timeout_ms=30000):
                         except Exception:
                             pass
                     for label, g in (out or {}).items():
-                        hyps = []
-                        if isinstance(g, tuple):
-                            g, hyps = g
-                            hyps = [h.t if isinstance(h, SB) else h for h in hyps]
-                        v, _ = eng.prove(g, extra=hyps)
+                        g, hyps, gopts = split_goal(g)
+                        v, _ = eng.prove(g, extra=hyps, pc_upto=gopts.get("pc_upto"))
                         if v != "unsat":
                             info["mismatch"].append(dict(kind="const-goal", label=label, verdict=v, values=_jsonable(values)))
         except Inconclusive as e:
